@@ -115,6 +115,10 @@ def handle (line : String) : String :=
             else checkCall p v (ll == "lower") (as == "async") f vs r b
       | _, _, _, _, none => "unparsable-tree"
       | _, _, _, _, _ => "bad-request"
+  | ["evalneeds", f, impl] =>
+      match parseFunc f with
+      | some f => checkNeeds f (impl.startsWith "postreturn=1")
+      | none => "bad-request"
   | ["reprint", tree] =>
       match parseBlock tree with
       | some b => Block.str b
